@@ -13,8 +13,8 @@
    route and train (the closed loop of the discretised controller).  They are evaluated on every
    implementation step by the check and their failure rate is reported. *)
 From Coq Require Import Reals List Bool ZArith Lra.
-From AltModel Require Import Num Interp Resist Braking TrainStep.
-From AltProofs Require Import NumR ResistP TrainStepP BrakingP.
+From AltModel Require Import Num Interp Powertrain Loco Consist Resist Braking TrainStep TrainFull.
+From AltProofs Require Import NumR ResistP TrainStepP BrakingP ConsistP TrainFullP.
 Import ListNotations.
 Open Scope R_scope.
 
@@ -94,3 +94,41 @@ Theorem C03_step_outcome_total : forall (e : Env (F:=R)) pts cl (s : SLState (F:
 Proof. exact step_outcome_total. Qed.
 Check (eq_refl : ERRS = [1101; 1301; 1205; 1302; 1303; 1304; 1305]%Z).
 Check (eq_refl : PANS = [1301; 1210]%Z).
+
+(* ---- the WHOLE simulation (coq/model/TrainFull.v): walk() with the consist inside the loop, the limits of
+   every step being the ones the consist itself publishes.  Tied to the real walk() end to end (check C11,
+   kind sl_full_walk: same number of steps, bit-equal final train, brake and consist state). ---- *)
+
+(* an accepted walk is a run of n whole steps that ends exactly when the loop condition fails, and in
+   every state before that the loop condition held and the train was not stuck *)
+Theorem C03_whole_walk_is_run : forall (e : Env (F:=R)) pts offset_end fmax fuel x x',
+  sl_full_walk fuel e pts offset_end fmax x = Ok x' ->
+  exists n, (n <= fuel)%nat /\ sl_full_run n e pts fmax x = Ok x' /\
+    walk_cond offset_end (fst x') = false /\
+    (forall k y, (k < n)%nat -> sl_full_run k e pts fmax x = Ok y ->
+       walk_cond offset_end (fst y) = true /\ walk_stuck offset_end (fst y) = false).
+Proof. exact sl_full_walk_is_run. Qed.
+
+(* it ends inside the stopping window at rest, or at / beyond the end of the path *)
+Theorem C03_whole_walk_ends_in_window : forall (e : Env (F:=R)) pts offset_end fmax fuel x x',
+  sl_full_walk fuel e pts offset_end fmax x = Ok x' ->
+  let k := ts_k (sl_st (fst x')) in
+  offset_end - ft1000 <= k_offset k /\ (offset_end <= k_offset k \/ k_speed k = 0).
+Proof. exact sl_full_walk_end. Qed.
+
+(* every whole step: 0 <= target <= limit in the saved row and the speed it started from is <= that limit *)
+Theorem C03_whole_step_limit_target : forall (e : Env (F:=R)) pts fmax (s s'' : SLState (F:=R)) (c c' : ConsistR),
+  Forall pt_ok pts -> sl_full_step e pts fmax (s, c) = Ok (s'', c') ->
+  let k' := ts_k (sl_st s'') in
+  0 <= k_speed_target k' <= k_speed_limit k' /\ k_speed (ts_k (sl_st s)) <= k_speed_limit k'.
+Proof. exact sl_full_step_limit_target. Qed.
+
+(* every whole step ends at or below its target when the braking force available in that step (friction
+   ramp + what the consist publishes) covers what the target asks for *)
+Theorem C03_whole_step_speed_le_target : forall (e : Env (F:=R)) pts fmax (s s'' : SLState (F:=R)) (c c' : ConsistR),
+  sl_full_step e pts fmax (s, c) = Ok (s'', c') ->
+  0 < k_dt (ts_k (sl_st s)) -> 0 < mass_compound (ts_p (sl_st s)) ->
+  exists c2 ax, consist_set_cur_pwr_max_out (consist_set_pwr_aux c true) (k_dt (ts_k (sl_st s))) = Ok c2 /\
+    (exists s', sl_solve_step_aux e pts (cl_of c2 fmax) s = Ok (s', ax) /\ s'' = sl_bump s') /\
+    (BrakeAdequate ax -> k_speed (ts_k (sl_st s'')) <= k_speed_target (ts_k (sl_st s''))).
+Proof. exact sl_full_step_speed_le_target. Qed.
